@@ -1,6 +1,6 @@
 """C01 — calling a generated trait method is calling the original function."""
 from ..common import Report, log
-from ..corpus import load
+from ..corpus import load, load_repo_tests
 from ..wrules import check_fnmod_delegation
 
 RULE_TEXT = ("R-DELEG over every fn/mod expansion of the witness corpus: the type-checked HIR body of each "
@@ -14,8 +14,10 @@ def run(tier):
     rep = Report("C01", tier, "translation_validation")
     configs = ["plain", "unimock_test"] if tier == "quick" else ["plain", "test", "unimock", "unimock_test"]
     programs = 0
-    for cfg in configs:
-        ld = load(rep, "pos", cfg)
+    loaded = [(cfg, load(rep, "pos", cfg)) for cfg in configs]
+    if tier == "thorough":
+        loaded.append(("unimock_test", load_repo_tests(rep)))
+    for cfg, ld in loaded:
         for exp in ld.crate.expansions:
             if exp.mode in ("fn", "mod"):
                 check_fnmod_delegation(rep, ld.crate, exp, cfg)
